@@ -306,6 +306,8 @@ class Engine:
         self.feas_timeout = self.opts.get('feas_timeout_ms', 1500)
         self.max_paths = self.opts.get('max_paths', 4000)
         self.inline_depth = 0
+        self.frame_ids = [0]          # one id per active function body (closures remember where they were made)
+        self.frame_counter = 0
         self.cur_mod = self.mod
         self.cur_cls = None
         self.floor_terms = []          # witness candidates for ExistsInt
@@ -840,7 +842,8 @@ class Engine:
         return v.k
 
     def st_FunctionDef(self, s, st):
-        st.env[s.name] = V('func', py=('closure', s, dict(st.env), self.cur_mod, self.cur_cls))
+        st.env[s.name] = V('func', py=('closure', s, dict(st.env), self.cur_mod, self.cur_cls),
+                           extra={'home': self.frame_ids[-1]})
         return [('next', st)]
 
     def st_Break(self, s, st):
@@ -2337,10 +2340,13 @@ class Engine:
             raise Unsupported(node, 'inline depth (recursion?) at %s' % qual)
         st.env = params
         self.local_stack.append(self.locals_of(fdef))
+        self.frame_counter += 1
+        self.frame_ids.append(self.frame_counter)
         try:
             self.number_loops(fdef)
             outs = self.exec_block(fdef.body, st)
         finally:
+            self.frame_ids.pop()
             self.local_stack.pop()
             self.inline_depth -= 1
             self.cur_mod, self.cur_cls = saved
@@ -2362,7 +2368,13 @@ class Engine:
         params = self.bind_params(fdef, None, args, kwargs, st, node, mod, clsname)
         if isinstance(params, Raised):
             return [(st, params)]
-        env = dict(cenv)
+        # called from the very function body that defined it: free variables are the caller's CURRENT
+        # locals (Python closes over variables, not values), and names declared `nonlocal` are written back
+        at_home = bool(f.extra) and f.extra.get('home') == self.frame_ids[-1]
+        nonlocals = [x for n_ in ast.walk(fdef) if isinstance(n_, ast.Nonlocal) for x in n_.names]
+        if nonlocals and not at_home:
+            raise Unsupported(node, 'closure with nonlocal state called away from its defining function')
+        env = dict(st.env) if at_home else dict(cenv)
         env.update(params)
         saved_env = st.env
         saved = (self.cur_mod, self.cur_cls)
@@ -2370,16 +2382,23 @@ class Engine:
         st.env = env
         self.inline_depth += 1
         self.local_stack.append(self.locals_of(fdef) - set(cenv))
+        self.frame_counter += 1
+        self.frame_ids.append(self.frame_counter)
         try:
             self.number_loops(fdef)
             outs = self.exec_block(fdef.body, st)
         finally:
+            self.frame_ids.pop()
             self.local_stack.pop()
             self.inline_depth -= 1
             self.cur_mod, self.cur_cls = saved
         res = []
         for o in outs:
-            o[1].env = dict(saved_env)
+            back = dict(saved_env)
+            for x in nonlocals:
+                if x in o[1].env:
+                    back[x] = o[1].env[x]
+            o[1].env = back
             if o[0] == 'next':
                 res.append((o[1], NONE))
             elif o[0] == 'ret':
@@ -2440,9 +2459,24 @@ class Engine:
         return [(st, V('func', py=('closure', fdef, dict(st.env), self.cur_mod, self.cur_cls)))]
 
     def ex_ListComp(self, e, st):
-        if len(e.generators) != 1 or e.generators[0].ifs:
+        if len(e.generators) != 1:
             raise Unsupported(e, 'comprehension shape')
         g = e.generators[0]
+        if g.ifs:
+            # a filter: only through the contract's model of it (hook), never by the generic map
+            h = self.contract.hooks.get('listcomp')
+            if h:
+                out = []
+                for st1, it in self.eval(g.iter, st):
+                    if isinstance(it, Raised):
+                        out.append((st1, it))
+                        continue
+                    r = h(self, e, it, st1, e)
+                    if r is None:
+                        raise Unsupported(e, 'comprehension shape')
+                    out.extend(r)
+                return out
+            raise Unsupported(e, 'comprehension shape')
         out = []
         for st1, it in self.eval(g.iter, st):
             if isinstance(it, Raised):
